@@ -39,7 +39,7 @@ func (o *Oblig) status() string {
 				allUnsat = false
 			}
 		}
-		if allUnsat && !anySat {
+		if allUnsat && !anySat && !o.Partial {
 			return "VACUOUS"
 		}
 		return "ok"
